@@ -80,6 +80,8 @@ def _check1(cname, n, pairs, rb, pb, has_ts, tb, ra, pa, ta, rbd, pbd, tbd, vari
         rs, ps, ts = tmpl.rename(rs, IDVARIANT), tmpl.rename(ps, IDVARIANT), tmpl.rename(ts, IDVARIANT)
         ps = dict(ps)
         ps["bonds"] = [(b, a, r, at) for (a, b, r, at) in ps["bonds"]]
+        ts = dict(ts)           # (round 3) the transition-structure graph lists its atoms in another insertion order (only the atom sets have to agree)
+        ts["atoms"] = list(reversed(ts["atoms"]))
         f = lambda prs: [(IDVARIANT[a], IDVARIANT[b]) for a, b in prs]  # noqa: E731
         R, P, T = f(R), f(P), f(T)
     gr, gp, gt = gl.build(rs), gl.build(ps), gl.build(ts)
